@@ -125,8 +125,9 @@ Proof.
   destruct a, b; simpl; try discriminate; trivial.
   - intro H. apply Nat.eqb_eq in H. now subst.
   - intro H. apply Z.eqb_eq in H. now subst.
-  - rewrite !andb_true_iff. intros [[H1 H2] H3]. apply kvs_eqb_eq in H1.
-    apply eqb_prop in H2. apply eqb_prop in H3. now subst.
+  - rewrite !andb_true_iff. intros [[[H1 H2] H3] H4]. apply kvs_eqb_eq in H1.
+    apply eqb_prop in H2. apply eqb_prop in H3. subst.
+    destruct h, h0; try discriminate; trivial. apply Z.eqb_eq in H4. now subst.
 Qed.
 
 Lemma res_fval_eqb_eq (a b : res fval) : res_eqb fval_eqb a b = true -> a = b.
